@@ -11,7 +11,8 @@ import (
 // C19 — client hooks observe exactly the bytes sent, each chunk read and the final frame; hooks do not change the outcome.
 
 func vhCloneScript(s *vhScript) *vhScript {
-	c := &vhScript{reply: s.reply, fault: s.fault, flushErr: s.flushErr}
+	c := &vhScript{reply: s.reply, fault: s.fault, flushErr: s.flushErr, pauseEOF: s.pauseEOF}
+	c.withErr = append(c.withErr, s.withErr...)
 	c.cuts = append(c.cuts, s.cuts...)
 	c.pauses = append(c.pauses, s.pauses...)
 	for range s.paused {
@@ -48,6 +49,9 @@ func VH_C19_hooks() {
 	if fault != 0 {
 		set := vhCutSet(upTo, E)
 		upTo = set[vndChoice("prefix", len(set))]
+	}
+	if mode == 2 {
+		s.pauseEOF = vndBool("emptyReadsAreEOF")
 	}
 	if upTo > 0 {
 		vhFragmentation(s, upTo, E, vndParam("chunks"))
